@@ -19,6 +19,7 @@ is consistent with the whole history, which is what the theorems quantify over.
   send <chain> <now> <pktid> <setSeqOk>                       -> ok|err <delta>
   restart <chain>                                             -> ok -            (export -> JSON -> wipe -> import)
   cons <chain> <client> <rev> <h> <root>                      -> ok              (consensus state of a bsc / eth client)
+  bulk <src> <dst> <ackid> <pktid>*                           -> ok              (many planted, received and acknowledged packets)
   plant <chain> <pktid>                                       -> ok <delta>     (commitment injected with the keeper setter)
   recv <chain> <now> <pktid> <proofid> <truth> <rev> <h> <signer> <cb>                        -> ok|err <delta> S=<ackStatus>
   ackm <chain> <now> <pktid> <ackid> <proofid> <truth> <rev> <h> <signer> <evm>               -> ok|err <delta> S=<ackStatus>
@@ -239,6 +240,22 @@ def step (st : St) (line : String) : St × String :=
         | none => (st, bad)
       | none => (st, bad)
     | _, _, _, _, _ => (st, bad)
+  | "bulk" :: src :: dst :: aid :: pids =>
+    -- test-only state injection for many packets at once (keeper setters on the real chains): commitment on the source,
+    -- receipt and acknowledgement hash on the destination
+    match unhex src, unhex dst, look st.acks aid with
+    | some sn, some dn, some abz =>
+      match getChain st sn, getChain st dn with
+      | some sc, some dc =>
+        let env := envOf st
+        let ps := pids.filterMap (fun pid => (look st.pkts pid).bind (fun bz => (look st.decP bz).map (·.1)))
+        if ps.length != pids.length then (st, bad) else
+        let sc' := ps.foldl (fun c p => { c with commits := c.commits.set (commitKey p) (env.sha256 (env.encodePacket p)) }) sc
+        let dc' := ps.foldl (fun c p => { c with receipts := c.receipts.set (receiptKey p) [1],
+                                                 acks := c.acks.set (ackKey p) (env.sha256 abz) }) dc
+        (putChain (putChain st sc') dc', "ok")
+      | _, _ => (st, bad)
+    | _, _, _ => (st, bad)
   | ["plant", chain, pid] =>
     -- test-only state injection (not a message): the harness wrote the commitment of this packet directly into the
     -- source chain's store with Keeper.SetPacketCommitment (sequences an honest sender cannot reach by sending)
